@@ -1267,6 +1267,14 @@ class MethodAnalysis:
             return SetV(Atom("$", "in", f"items({t.name})"))
         if m in ("copy", "get", "__contains__"):
             return Opaque(f"table.{m}")
+        if m == "pop" and len(args) == 1 and t.name in ("N", "E") and not self.directed:
+            # members = table.pop(k): the stored set is handed out and the key deleted (KeyError when absent)
+            k = self.key_scalar(args[0], st)
+            self.table_load(t.name, k, st, conds, loops)
+            old = self.entry_set(Entry(t.name, k, None))
+            content = SetV(old.f, source=None, materialized=True)
+            self.delete(t, args[0], st, env, conds, loops)
+            return content
         if m in ("pop", "popitem", "update", "setdefault", "__setitem__", "__delitem__"):
             raise Unsupported(f"{self.fn.fq}:{st.lineno}: table method .{m}() on {t.name} is not an idiom the incidence walker recognises")
         return Opaque(f"table.{m}")
